@@ -1,11 +1,11 @@
 (* C15 — two executable models, each transcribed from its own Go source.
 
-   [vc_*]  : volcano  pkg/scheduler/api/pod_info.go
-               GetPodResourceRequest 68-72, aggregateAllContainerResourceRequests 82-129,
-               GetPodResourceWithoutInitContainers 248-252,
-               aggregateRegularContainerResourceRequests 255-280,
-               amendResourceAccordingToPodFeatures 310-339,
-               determineContainerReqs / maxFn / maxResourceList 383-412
+   [vc_*]  : volcano  pkg/scheduler/api/pod_info.go (after the two C15 fix: commits)
+               GetPodResourceRequest 68-72, aggregateAllContainerResourceRequests 82-138,
+               GetPodResourceWithoutInitContainers 257-261,
+               aggregateRegularContainerResourceRequests 264-289,
+               amendResourceAccordingToPodFeatures 319-348, determinePodLevelReqs 394-404,
+               determineContainerReqs / maxFn / maxResourceList 407-436
              pkg/scheduler/api/resource_info.go  NewResource 87-123, AddScalar/SetScalar 931-942
              (Resource.Add / SetMaxResource are Base.Res.add / set_max)
    [k8s_*] : k8s.io/component-helpers@v0.36.1/resource/helpers.go
@@ -168,21 +168,34 @@ Definition vc_init_step (ippvs infeasible : bool) (ism : gmap positive cstatus)
   else
     (result, rst, set_max ini (add (add empty_res creq) rst)).
 
-(* aggregateAllContainerResourceRequests *)
-Definition vc_aggregate (ippvs : bool) (p : pod) : res :=
+(* aggregateAllContainerResourceRequests; [dra] is the gate DRANodeAllocatableResources *)
+Definition vc_aggregate (ippvs dra : bool) (p : pod) : res :=
   let ism := status_map (p_istat p) in
   let inf := resize_infeasible (p_conds p) in
   let '(result, _, ini) :=
     fold_left (vc_init_step ippvs inf ism) (p_inits p) (vc_regular ippvs p, empty_res, empty_res) in
-  add_scalar (set_max result ini) pods_name 1.
+  let total := set_max result ini in
+  let total :=
+    if dra then fold_left (fun acc cl => add acc (new_resource cl)) (p_claims p) total else total in
+  add_scalar total pods_name 1.
+
+(* determinePodLevelReqs; [ippl] is the gate InPlacePodLevelResourcesVerticalScaling *)
+Definition vc_pod_level_reqs (ippvs ippl : bool) (p : pod) : rl :=
+  let l := default ∅ (p_plreq p) in
+  if ippl && ippvs then
+    match p_pstat p with
+    | Some act => vc_determine (resize_infeasible (p_conds p)) l act (p_palloc p)
+    | None => l
+    end
+  else l.
 
 (* amendResourceAccordingToPodFeatures; [plr] is the gate PodLevelResources *)
-Definition vc_amend (plr : bool) (r : res) (p : pod) : res :=
+Definition vc_amend (ippvs plr ippl : bool) (r : res) (p : pod) : res :=
   let r1 := mkRes (cpu r) (mem r) (Some (scm r)) in
   let r2 :=
     if plr && pl_requests_set p then
       let l := default ∅ (p_plreq p) in
-      let pr := new_resource l in
+      let pr := new_resource (vc_pod_level_reqs ippvs ippl p) in
       mkRes (if bool_decide (is_Some (l !! cpu_name)) then cpu pr else cpu r1)
             (if bool_decide (is_Some (l !! mem_name)) then mem pr else mem r1)
             (Some (map_imap (fun k _ =>
@@ -192,12 +205,12 @@ Definition vc_amend (plr : bool) (r : res) (p : pod) : res :=
   add r2 (new_resource (p_overhead p)).
 
 (* GetPodResourceRequest: TaskInfo.Resreq and TaskInfo.InitResreq are this value *)
-Definition vc_pod_request (ippvs plr : bool) (p : pod) : res :=
-  vc_amend plr (vc_aggregate ippvs p) p.
+Definition vc_pod_request (ippvs plr ippl dra : bool) (p : pod) : res :=
+  vc_amend ippvs plr ippl (vc_aggregate ippvs dra p) p.
 
 (* GetPodResourceWithoutInitContainers *)
-Definition vc_pod_request_noinit (ippvs plr : bool) (p : pod) : res :=
-  vc_amend plr (vc_regular ippvs p) p.
+Definition vc_pod_request_noinit (ippvs plr ippl : bool) (p : pod) : res :=
+  vc_amend ippvs plr ippl (vc_regular ippvs p) p.
 
 (* ================= upstream ================= *)
 
